@@ -261,6 +261,19 @@ def c05(work, tier, seed, replay):
     # database lock for a moment. Trace_Witness: the answer is the atomic witness' answer on the state that was current, or a storage error without effect.
     two_instance_lin_part(work, rep, tier, seed, "C05")
     import seqfam
+    # ---- "in some order compatible with real time ... no reader ever sees a log's size go down", through the registered HTTP handlers: a read whose
+    # return from storage is held back while an update is accepted and further reads arrive (scripted overlaps; both stores). A read that STARTED
+    # after the accepted update returned sees it - whatever the read path shares between requests (coalesced in-flight reads, a cache filled on a miss).
+    import checks_seq
+    rc = checks_seq.H("quick")
+    rruns = checks_seq.racy_read_runs(rc)
+    rtrace, _ = seqfam.execute(work, rep, rc, rruns, ["inmem", "sqlmem", "sqlfile"], ["id"], seed, http=True, tag="c05racy")
+    revents = seqfam.index_trace(rtrace)
+    seqfam.settle(rep, "C05", seqfam.judge(work, rep, rc, rtrace, name="judge-racy-reads"), revents, rc)
+    nreads = sum(1 for e in revents if e.get("e") == "get")
+    if not nreads:
+        raise Inconclusive("the overlapping-read runs recorded no read")
+    rep.cov["reads_overlapping_accepted_updates_over_http"] = nreads
     fev, _ = fault_pipeline(work, rep, "quick", seed, "C05", groups={"driver", "fetch"})
     rep.cov["updates_during_which_the_store_reported_trouble"] = sum(1 for e in fev if e.get("e") == "update" and e.get("fired"))
     for store, r, tp in rejected:
